@@ -425,6 +425,58 @@ def processStructOuts (dimAware : Bool) (ps : Path) (params : List (String × St
   let r := handleOuts dimAware ps params kvs outsPath fs1
   (.obj r.1, r.2)
 
+/-! ## The verification gate in front of post-processing
+
+A stage or pipeline fork can only complete when its outputs pass
+`LazyArgumentMap.ValidateOutputs` (`Fork.verifyOutput` /
+`verifyPipelineOutput` → `Type.IsValidJson`).  For a typed map,
+`TypedMapType.IsValidJson` (collection_types.go) demands of the KEYS: when the
+map is a directory kind (`s.IsFile() == KindIsDirectory`, i.e. its element type
+contains a file type: a file, an array of files, a struct with files, a map of
+those …) every key must be a legal file name; and it descends into every entry
+(`ArrayType` into every element, `StructType` into every declared member).
+`keysVerified` is that demand, as a function of (type, value); everything else
+the gate checks (value kinds) is not modelled. -/
+
+/-- arrays of `k+1` dimensions whose innermost elements satisfy `f` -/
+def keysArr (f : J → Bool) : Nat → J → Bool
+  | 0, v =>
+    match v with
+    | .arr xs => xs.all f
+    | _ => true
+  | k + 1, v =>
+    match v with
+    | .arr xs => xs.all (keysArr f k)
+    | _ => true
+
+/-- one typed-map value: legal keys when the map is a directory kind, entries satisfy `f` -/
+def keysMap (dir : Bool) (f : J → Bool) (v : J) : Bool :=
+  match v with
+  | .obj kvs => (!dir || kvs.all (fun kv => legalName kv.1)) && kvs.all (fun kv => f kv.2)
+  | _ => true
+
+mutual
+/-- what output verification demands of typed-map keys in a value of type `ty` -/
+def keysVerified : Ty → J → Bool
+  | .scalar, _ => true
+  | .file _, _ => true
+  | .arr e k, v => keysArr (keysVerified e) k v
+  | .tmap e, v => keysMap (hasFile e) (keysVerified e) v
+  | .struct ms, v =>
+    match v with
+    | .obj kvs => keysVerifiedMs ms kvs
+    | _ => true
+def keysVerifiedMs : List (String × String × Ty) → List (String × J) → Bool
+  | [], _ => true
+  | (id, _, t) :: ms, kvs => keysVerified t ((lookupLast kvs id).getD .null) && keysVerifiedMs ms kvs
+end
+
+/-- the gate on a whole `_outs` record -/
+def recordKeysVerified (params : List (String × String × Ty)) (outs : J) : Bool :=
+  match outs with
+  | .obj kvs => keysVerifiedMs params kvs
+  | _ => true
+
 /-! ## Mapped top-level calls (`Fork.postProcess`, `*ArrayType` / `*TypedMapType` cases) -/
 
 /-- `Fork.postProcess` for a top-level call mapped over an array: `_outs` is an
